@@ -244,6 +244,47 @@ task_order.contract_fn = "curves.Curve.degree_increase"
 
 
 # --------------------------------------------------------------------------------------
+# engine B: a reduction by t >= 2 of a curve that is reducible FEWER than t times is refused with the curve untouched - through degree_decrease(t) AND through
+# the setter forms `curve.degree = v`, `curve.degree -= t` (a reduction done one degree at a time commits its first steps)
+# --------------------------------------------------------------------------------------
+def task_partial_reduction():
+    fn = "curves.BaseCurve.degree"
+    out = []
+    bases = {"parabola-as-cubic": ([F(0)] * 3 + [F(2)] * 3, [F(1), F(-2), F(4)], 1), "quadratic-spline-as-cubic": ([F(0)] * 3 + [F(1, 3)] + [F(2)] * 3, [F(1), F(-2), F(4), F(0)], 1),
+             "line-as-cubic": ([F(0), F(0), F(3), F(3)], [F(1), F(5)], 2)}
+    forms = {"degree_decrease(t)": lambda c, t: c.degree_decrease(t), "degree = p - t": lambda c, t: setattr(c, "degree", c.degree - t),
+             "degree -= t": lambda c, t: c.__setattr__("degree", c.degree - t)}
+    for name, (U, P, up) in bases.items():
+        for fname, f in forms.items():
+            bad = None
+            try:
+                c = curves.Curve(list(U), list(P))
+                c.degree_increase(up)                       # stored with a degree higher than needed: reducible exactly `up` times
+                before = (tuple(c.knotvector), tuple(c.ctrlpoints), c.weights)
+                p0 = c.degree
+                t = up + 1
+                try:
+                    f(c, t)
+                    bad = "reduction by %d of a curve reducible %d time(s) was accepted (degree %d -> %d)" % (t, up, p0, c.degree)
+                except ValueError:
+                    after = (tuple(c.knotvector), tuple(c.ctrlpoints), c.weights)
+                    if after != before:
+                        bad = "ValueError, but the curve changed: degree %d -> %d, %d -> %d control points" % (p0, c.degree, len(before[1]), len(after[1]))
+                if not bad:
+                    f(c, up)                                # the admissible reduction still works, exactly
+                    if c.degree != p0 - up or [F(x) for x in c.knotvector] != [F(x) for x in U] or list(c.ctrlpoints) != list(P):
+                        bad = "reduction by %d does not give back the original curve" % up
+            except Exception as e:
+                bad = "%s: %s" % (type(e).__name__, str(e)[:100])
+            out.append(ob("%s:partial-reduction-refused-atomically[%s,%s]" % (fn, name, fname), fn, FAILED if bad else PROVED, "B", "concrete", 0.0,
+                          bad or "refused with the curve untouched; the admissible reduction restores the original", dict(kind="c06.partial", case=name, form=fname) if bad else None))
+    return out + [{"_stats": dict(cases=len(out))}]
+
+
+task_partial_reduction.contract_fn = "curves.BaseCurve.degree"
+
+
+# --------------------------------------------------------------------------------------
 # engine B: degree_decrease(t, None) is the CONSTRAINED BEST approximation: it keeps the values at the remaining knots and its residual is L2-orthogonal to every
 # lower-degree spline that vanishes at those knots - on knot vectors with spans of UNEQUAL length and interior knots that stay
 # --------------------------------------------------------------------------------------
@@ -292,7 +333,7 @@ def tasks(tier, seed):
     from ..pyvc.driver import verify
     from ..contracts import misc
     from ..contracts import curvesv
-    ts = [(verify, (misc.BEZIER_ONCE, "heavy", "Operations.degree_increase_bezier_once", None)), (task_order, ()), (task_best_approximation, ())]
+    ts = [(verify, (misc.BEZIER_ONCE, "heavy", "Operations.degree_increase_bezier_once", None)), (task_order, ()), (task_best_approximation, ()), (task_partial_reduction, ())]
     # shape-level contracts (all curves, all arguments): degree +- t, INV, refusals atomic; degree setter dispatches to them
     ts += curvesv.tasks_for(("Curve.degree_increase", "Curve.degree_decrease", "BaseCurve.degree", "BaseCurve.apply"))
     for sh in tier_shapes(tier):
@@ -315,6 +356,10 @@ def replay(o):
     if (o.get("witness") or {}).get("kind") == "kinds":
         from . import kinds
         return kinds.replay(o)
+    if (o.get("witness") or {}).get("kind") == "c06.partial":
+        w = o["witness"]
+        r = [x for x in task_partial_reduction() if "id" in x and x["id"].endswith("[%s,%s]" % (w["case"], w["form"]))][0]
+        return r["status"] == FAILED, "ValueError with the curve untouched; the admissible reduction restores the original", r["detail"]
     if (o.get("witness") or {}).get("kind") == "c06.order":
         w = o["witness"]
         r = [x for x in task_order() if "id" in x and x["id"].endswith(":after-%s-run[%s,t=%d]" % (w["first"], w["case"], w["t"]))][0]
